@@ -49,7 +49,7 @@ ASSUMPTIONS = [
     "new-process recovery is executed once per distinct on-disk state (memoised by content hash)",
 ]
 BOUNDS = {
-    "quick": {"history_depth": "6 (4 with byte-code caching)", "faults": "1 fault at every call x every mode", "constructors": "2 threads: preemption bound 3; 3 threads: bound 1"},
+    "quick": {"history_depth": "7 (5 with byte-code caching)", "faults": "1 fault at every call x every mode", "constructors": "2 threads: preemption bound 4; 3 threads: bound 1"},
     "thorough": {"history_depth": "10 (7 with byte-code caching)", "faults": "1 fault at every call x every mode; 2 faults (die after a failed call)", "constructors": "2 threads: preemption bound 5; 3 threads: bound 2"},
 }
 READY = True
@@ -621,7 +621,7 @@ def h_configs(tier):
     cfgs = [{"pyc": False, "writer": False}, {"pyc": False, "writer": True}, {"pyc": True, "writer": False}]
     for c in cfgs:
         # byte-code caching multiplies the state space (the cached file is part of the state)
-        c["max_depth"] = (4 if c["pyc"] else 6) if tier == "quick" else (7 if c["pyc"] else 10)
+        c["max_depth"] = (5 if c["pyc"] else 7) if tier == "quick" else (7 if c["pyc"] else 10)
     return cfgs
 
 
@@ -632,7 +632,7 @@ def conc_specs(tier):
     q = tier == "quick"
     out = []
     for init in ("no-module", "stale-module", "corrupt-module", "missing-dir"):
-        out.append((init, 2, 3 if q else 5))
+        out.append((init, 2, 4 if q else 5))
         out.append((init, 3, 1 if q else 2))
     return out
 
